@@ -37,11 +37,11 @@ prop( 'C12', [ 'T-CLIENT-TYPES', 'P-BUNDLE', 'P-FRESH', 'T-PATHSYNTAX', 'S-COMPL
       not_decided='equality of result sequences across depth/bundling settings (dynamic).',
       technique='table extraction from AST + interval containment; guard-shape checks' )
 
-prop( 'C16', [ 'T-RESERVED', 'D-DELEGATE', 'D-RESOLVE' ],
+prop( 'C16', [ 'T-RESERVED', 'D-DELEGATE', 'D-RESOLVE', 'D-UNPACK' ],
       decides='T-RESERVED: every non-dunder name that ordinary attribute lookup finds on a dotdict before __getattr__ (methods '
               'and class attributes of dotdict_base plus dict\'s public API) is refused as a key by the guarded leaf store; '
               'D-DELEGATE: attribute access, get, setdefault and membership are defined through __getitem__/__setitem__ and all '
-              'accessors split dotted keys with _resolve.  D-RESOLVE also: a first segment cut inside an index expression is extended exactly while its brackets are unbalanced (continuation test evaluated on sample segments).',
+              'accessors split dotted keys with _resolve.  D-RESOLVE also: a first segment cut inside an index expression is extended exactly while its brackets are unbalanced (continuation test evaluated on sample segments).  D-UNPACK: every two-target unpack of <x>.split( <sep>, 1 ) in dotdict.py is controlled by a test `<sep> in <x>` on the unmodified <x> (a path whose last segment lacks the separator must resolve or raise KeyError, never ValueError).',
       not_decided='path semantics over operation sequences (lookup/iteration/copy agreement is a dynamic, history-dependent claim).',
       technique='name-set comparison over class AST; delegation-shape checks' )
 
